@@ -211,6 +211,53 @@ func intrinsicallyNonNil(v ssa.Value) bool {
 
 // mayReturnNilWithErr: callee returns (T, error) and has a return with a nil
 // first result and a possibly non-nil error.
+// mayReturnTypedNil: (value, bool) function whose interface-typed first result is built from a pointer obtained by a map
+// lookup (nil on a miss) or from a nil pointer constant.
+func (c *nilCtx) mayReturnTypedNil(fn *ssa.Function) bool {
+	if fn == nil || fn.Blocks == nil || fn.Pkg == nil || !isRepoPath(fn.Pkg.Pkg.Path()) {
+		return false
+	}
+	res := fn.Signature.Results()
+	if res.Len() != 2 {
+		return false
+	}
+	if _, isIface := res.At(0).Type().Underlying().(*types.Interface); !isIface {
+		return false
+	}
+	for _, ret := range Returns(fn) {
+		found := false
+		Origins(retValue(ret, 0), func(v ssa.Value) bool {
+			mi, ok := v.(*ssa.MakeInterface)
+			if !ok {
+				return false
+			}
+			if _, isPtr := mi.X.Type().Underlying().(*types.Pointer); !isPtr {
+				return true
+			}
+			Origins(mi.X, func(w ssa.Value) bool {
+				switch y := w.(type) {
+				case *ssa.Lookup:
+					found = true
+				case *ssa.Extract:
+					if _, ok := y.Tuple.(*ssa.Lookup); ok {
+						found = true
+					}
+				case *ssa.Const:
+					if y.IsNil() {
+						found = true
+					}
+				}
+				return found
+			})
+			return true
+		})
+		if found {
+			return true
+		}
+	}
+	return false
+}
+
 // mayReturnNilWithoutErr: the repository function has a path returning (nil, nil).
 func (c *nilCtx) mayReturnNilWithoutErr(fn *ssa.Function) bool {
 	if fn == nil || fn.Blocks == nil || fn.Pkg == nil || !isRepoPath(fn.Pkg.Pkg.Path()) {
@@ -345,9 +392,30 @@ func (c *nilCtx) classifyD(fn *ssa.Function, v ssa.Value, d int) *nilSource {
 				if o := callObj(t.Common()); o != nil {
 					name = o.Name()
 				}
-				return &nilSource{Kind: "S1", At: t, Desc: "first result of " + name + "() with ok unchecked", Assume: func(cond ssa.Value) (bool, bool) {
+				// an interface result that wraps a possibly-nil pointer (`p, ok := m[id]; return p, ok`) is a typed nil on a
+				// miss: it compares unequal to nil, so only the ok result decides
+				typedNil := false
+				for _, g := range c.e.Callees(t) {
+					if c.mayReturnTypedNil(g) {
+						typedNil = true
+					}
+				}
+				desc := "first result of " + name + "() with ok unchecked"
+				if typedNil {
+					desc = "first result of " + name + "() with ok unchecked (an interface holding a nil pointer on a miss: `== nil` does not detect it)"
+				}
+				return &nilSource{Kind: "S1", At: t, Desc: desc, Assume: func(cond ssa.Value) (bool, bool) {
 					if ex, ok := cond.(*ssa.Extract); ok && ex.Tuple == tup && ex.Index == 1 {
 						return true, false
+					}
+					if typedNil {
+						if k, val := nilTest(cond); k {
+							// the interface is non-nil even when the pointer inside is nil
+							_ = val
+							b := cond.(*ssa.BinOp)
+							return true, b.Op == token.NEQ
+						}
+						return false, false
 					}
 					return nilTest(cond)
 				}}
